@@ -72,19 +72,25 @@ Proof.
     + rewrite Z.pow_0_r, Z.mul_1_r, wrap_id by assumption. reflexivity.
     + rewrite pow_factor_spec by assumption.
       rewrite Z.shiftr_div_pow2 by lia. change (2 ^ 1) with 2.
-      rewrite IH; try apply wrap_in_range; try lia.
-      2:{ rewrite Nat2Z.inj_succ, Z.pow_succ_r in He by lia.
-          split; [Z.to_euclidean_division_equations; lia|].
-          apply Z.div_lt_upper_bound; lia. }
-      f_equal. apply wrap_eq_of_mod; [exact Hw|].
       pose proof (pow2_pos w ltac:(lia)) as P.
-      rewrite (pow_split b e) by lia.
-      set (fac := if e mod 2 =? 1 then b else 1).
-      rewrite Z.mul_mod by lia. rewrite wrap_mod by lia.
-      rewrite <- (pow_mod_l (wrap w s (b * b))) by (try lia; Z.to_euclidean_division_equations; lia).
-      rewrite wrap_mod by lia.
-      rewrite pow_mod_l by (try lia; Z.to_euclidean_division_equations; lia).
-      rewrite <- Z.mul_mod by lia. f_equal. ring.
+      assert (Hdiv : 0 <= e / 2 < 2 ^ Z.of_nat f).
+      { rewrite Nat2Z.inj_succ, Z.pow_succ_r in He by lia.
+        split; [Z.to_euclidean_division_equations; lia|]. apply Z.div_lt_upper_bound; lia. }
+      destruct (Z.eqb_spec (e / 2) 0) as [E0|E0].
+      * (* last bit: the base is not squared any more *)
+        rewrite IH; try apply wrap_in_range; try assumption; try lia.
+        assert (e = 1) by (Z.to_euclidean_division_equations; lia). subst e.
+        rewrite E0, Z.pow_0_r, Z.mul_1_r. change (1 mod 2 =? 1) with true. cbn iota.
+        rewrite Z.pow_1_r. f_equal. apply wrap_eq_of_mod; [lia|]. apply wrap_mod. lia.
+      * rewrite IH; try apply wrap_in_range; try lia.
+        f_equal. apply wrap_eq_of_mod; [exact Hw|].
+        rewrite (pow_split b e) by lia.
+        set (fac := if e mod 2 =? 1 then b else 1).
+        rewrite Z.mul_mod by lia. rewrite wrap_mod by lia.
+        rewrite <- (pow_mod_l (wrap w s (b * b))) by (try lia; Z.to_euclidean_division_equations; lia).
+        rewrite wrap_mod by lia.
+        rewrite pow_mod_l by (try lia; Z.to_euclidean_division_equations; lia).
+        rewrite <- Z.mul_mod by lia. f_equal. ring.
 Qed.
 
 (* --- main theorems ------------------------------------------------------------------------ *)
@@ -179,3 +185,4 @@ Proof.
   destruct (Z.leb_spec n (2 ^ 63 - 1)); [|exact I].
   destruct (Z.leb_spec n 62); [lia|]. destruct (Z.leb_spec n 63); lia.
 Qed.
+
